@@ -133,6 +133,11 @@ SupportedKinds == {
     \* a keyword standing directly against its operand (optional spacing)
     "return-paren-tight", "return-minus-tight", "return-tab", "if-paren-tight", "elif-paren-tight", "while-paren-tight",
     "elif-pass-else", "elif-print-elif", "if-pass-else",
+    \* identifiers that begin with a keyword / a word the line dispatch knows are ordinary names
+    "assign-name-import-prefix", "assign-name-from-prefix", "assign-name-def-prefix", "assign-name-if-prefix", "assign-name-for-prefix",
+    "assign-name-while-prefix", "assign-name-return-prefix", "assign-name-pass-prefix", "assign-name-print-prefix", "assign-name-global-prefix",
+    "assign-name-try-prefix", "assign-name-else-prefix", "assign-name-target-prefix", "assign-name-sleep-prefix",
+    "augassign-name-import-prefix", "call-helper-import-prefix", "call-helper-print-prefix",
     \* string literals that contain `#` after escaped quotes (a comment stripper must respect the literal), and a loop
     \* sitting next to a first assignment in the same `if` (the promotion pass rewrites that branch)
     "serial-write-hash-dq", "serial-write-hash-sq", "if-hash-literal", "if-first-assign-and-for", "else-first-assign-and-while"}
